@@ -469,6 +469,11 @@ def _canonical_statements(tree: ast.AST):
                             continue
                         # for k in range(len(X)): v = X[k] ; ...      ->   for k, v in enumerate(X): ...
                         if isinstance(st, ast.For):
+                            un = _unroll_literal_loop(fn, st)
+                            if un is not None:
+                                out.extend(un)
+                                i += 1
+                                continue
                             _index_loop_to_enumerate(fn, st)
                             _enumerate_to_index_loop(st)
                         # x = x op y
@@ -636,7 +641,7 @@ def _eliminate_aliases(tree: ast.AST):
                     n.id = b
 
 
-_PURE_CALLS = {"len", "sum", "min", "max", "abs", "float", "int", "bool", "sorted", "list", "tuple", "enumerate", "zip", "range", "reversed",
+_PURE_VALUE_CALLS = {"Segment", "Unit", "len", "sum", "min", "max", "abs", "float", "int", "bool", "sorted", "list", "tuple", "enumerate", "zip", "range", "reversed",
                "np.sum", "np.abs", "np.mean", "np.sqrt", "np.log2", "np.ceil", "np.floor", "np.float32", "np.float64", "np.int32", "np.int64", "np.int16",
                "np.maximum", "np.minimum", "np.cumsum", "np.unique", "np.argsort", "np.where", "np.arange", "np.max", "np.min", "np.std", "np.asarray",
                "isinstance", "str", "round", "math.sqrt", "math.ceil", "math.floor"}
@@ -650,7 +655,7 @@ def _pure_expr(e: ast.AST) -> bool:
     for x in ast.walk(e):
         if isinstance(x, ast.Call):
             fn = ast.unparse(x.func)
-            if fn in _PURE_CALLS:
+            if fn in _PURE_VALUE_CALLS:
                 continue
             if isinstance(x.func, ast.Attribute) and x.func.attr in _PURE_METHODS:
                 continue
@@ -658,6 +663,80 @@ def _pure_expr(e: ast.AST) -> bool:
         if isinstance(x, (ast.Yield, ast.YieldFrom, ast.Await, ast.NamedExpr, ast.Lambda, ast.Starred)):
             return False
     return True
+
+
+def _propagate_field_reads(tree: ast.AST, computed: Set[str] = frozenset()):
+    """`a = b.f.g` (a plain local bound once; b a name that is not rebound while a is live; no store to an attribute f / g anywhere in the
+    function): every later read of a in the same block (or nested in it) is the field read itself, so a is replaced and the assignment dropped."""
+    import copy as _copy
+    for fn in [n for n in ast.walk(tree) if isinstance(n, (ast.FunctionDef, ast.AsyncFunctionDef))]:
+        a_ = fn.args
+        params = {x.arg for x in a_.args + a_.kwonlyargs + a_.posonlyargs} | ({a_.vararg.arg} if a_.vararg else set()) | ({a_.kwarg.arg} if a_.kwarg else set())
+        attr_stores = set()
+        for n in ast.walk(fn):
+            if isinstance(n, ast.Attribute) and isinstance(n.ctx, (ast.Store, ast.Del)):
+                attr_stores.add(n.attr)
+        for _round in range(6):
+            stores: Dict[str, int] = {}
+            nested = set()
+            for n in ast.walk(fn):
+                if n is not fn and isinstance(n, (ast.FunctionDef, ast.AsyncFunctionDef, ast.Lambda, ast.ClassDef)):
+                    nested |= _names_in(n)
+                if isinstance(n, ast.Name) and isinstance(n.ctx, (ast.Store, ast.Del)):
+                    stores[n.id] = stores.get(n.id, 0) + 1
+                elif isinstance(n, (ast.Global, ast.Nonlocal)):
+                    for nm in n.names:
+                        stores[nm] = 99
+            done = False
+            for node in ast.walk(fn):
+                for fld in ("body", "orelse", "finalbody"):
+                    blk = getattr(node, fld, None)
+                    if not isinstance(blk, list) or not blk or not isinstance(blk[0], ast.stmt):
+                        continue
+                    for k, st in enumerate(blk):
+                        if not (isinstance(st, ast.Assign) and len(st.targets) == 1 and isinstance(st.targets[0], ast.Name) and
+                                isinstance(st.value, ast.Attribute) and _plain_read(st.value) and getattr(st, "ann", None) is None):
+                            continue
+                        a = st.targets[0].id
+                        chain = []
+                        e = st.value
+                        while isinstance(e, ast.Attribute):
+                            chain.append(e.attr)
+                            e = e.value
+                        if not isinstance(e, ast.Name):
+                            continue
+                        b = e.id
+                        if a in params or a in nested or stores.get(a) != 1 or a == b or set(chain) & attr_stores or b in ("self", "cls") or set(chain) & computed:
+                            continue
+                        rest = blk[k + 1:]
+                        # b must not be rebound while a is live, and every read of a must be in the rest of this block
+                        if b in _stored_names(rest):
+                            continue
+                        inside = {id(x) for s in rest for x in ast.walk(s)}
+                        reads = [x for x in ast.walk(fn) if isinstance(x, ast.Name) and x.id == a and isinstance(x.ctx, ast.Load)]
+                        if not reads or any(id(x) not in inside for x in reads):
+                            continue
+                        val = st.value
+
+                        class R(ast.NodeTransformer):
+                            def visit_Name(self, n):
+                                if n.id == a and isinstance(n.ctx, ast.Load):
+                                    return ast.copy_location(_copy.deepcopy(val), n)
+                                return n
+                        for s in rest:
+                            R().visit(s)
+                        del blk[k]
+                        if not blk:
+                            blk.append(ast.copy_location(ast.Pass(), st))
+                        done = True
+                        break
+                    if done:
+                        break
+                if done:
+                    break
+            if not done:
+                break
+    ast.fix_missing_locations(tree)
 
 
 def _inline_adjacent_temporaries(tree: ast.AST):
@@ -922,6 +1001,53 @@ def _collecting_nest(st, nxt):
     return a
 
 
+def _unroll_literal_loop(fn, L: ast.For):
+    """`for a, b in ((x1, y1), (x2, y2), ...): BODY` over a literal of plain reads (no break / continue, targets dead outside the loop)
+    is BODY[x1, y1]; BODY[x2, y2]; ... : a table-driven dispatch reads like the chain of statements it stands for"""
+    import copy as _copy
+    if L.orelse or not isinstance(L.iter, (ast.Tuple, ast.List)) or not (1 <= len(L.iter.elts) <= 12):
+        return None
+    if isinstance(L.target, ast.Name):
+        names = [L.target.id]
+    elif isinstance(L.target, ast.Tuple) and all(isinstance(x, ast.Name) for x in L.target.elts):
+        names = [x.id for x in L.target.elts]
+    else:
+        return None
+    rows = []
+    for el in L.iter.elts:
+        if len(names) == 1 and isinstance(L.target, ast.Name):
+            if not _plain_read(el):
+                return None
+            rows.append([el])
+        else:
+            if not (isinstance(el, (ast.Tuple, ast.List)) and len(el.elts) == len(names) and all(_plain_read(x) for x in el.elts)):
+                return None
+            rows.append(list(el.elts))
+    if _loop_level(L.body, (ast.Break, ast.Continue)) or set(names) & _stored_names(L.body):
+        return None
+    inside = {id(x) for x in ast.walk(L)}
+    if any(isinstance(x, ast.Name) and x.id in names and id(x) not in inside for x in ast.walk(fn)):
+        return None
+    # names read by the rows must not be rebound by the body (the literal is evaluated once, before the first iteration)
+    row_names = {n for r in rows for x in r for n in _names_in(x)}
+    if row_names & _stored_names(L.body):
+        return None
+    out = []
+    for r in rows:
+        env = dict(zip(names, r))
+
+        class S(ast.NodeTransformer):
+            def visit_Name(self, n):
+                if isinstance(n.ctx, ast.Load) and n.id in env:
+                    return ast.copy_location(_copy.deepcopy(env[n.id]), n)
+                return n
+        for st in L.body:
+            out.append(S().visit(_copy.deepcopy(st)))
+    for st in out:
+        ast.fix_missing_locations(st)
+    return out
+
+
 def _plain_read(e: ast.AST) -> bool:
     """name, constant, or attribute chain on a name (a field read)"""
     while isinstance(e, ast.Attribute):
@@ -949,7 +1075,7 @@ def _as_load(t: ast.AST) -> ast.AST:
     return t
 
 
-def normalise_tree(tree: ast.AST) -> int:
+def normalise_tree(tree: ast.AST, computed: Set[str] = frozenset()) -> int:
     """In-place canonicalisation applied to every module before any analysis, so that the rules do not depend on incidental syntax:
       * `x: T = v`  becomes  `x = v`  (the annotation is kept on the node as `.ann` for type inference);
       * inert statements are dropped inside functions: docstrings, `pass`, logging calls whose arguments are effect-free.
@@ -979,6 +1105,7 @@ def normalise_tree(tree: ast.AST) -> int:
     _canonical_statements(tree)
     _eliminate_aliases(tree)
     if os.environ.get("PGSTAT_NO_TEMP_INLINE") != "1":
+        _propagate_field_reads(tree, computed)      # `computed`: names of properties (their reads run code: never duplicated)
         _inline_adjacent_temporaries(tree)
         _canonical_statements(tree)
     for fn in [n for n in ast.walk(tree) if isinstance(n, (ast.FunctionDef, ast.AsyncFunctionDef))]:
@@ -1025,8 +1152,10 @@ class Model:
             self.inlined = getattr(self, "inlined", []) + [f"{p.name}: {l}" for l in log]
             self.modules[mname] = Module(mname, f"{PKG}/{p.name}", src, tree)
         self.helpers_dropped = drop_unreferenced_helpers([m.tree for m in self.modules.values()])
+        computed = {s.name for m in self.modules.values() for c in ast.walk(m.tree) if isinstance(c, ast.ClassDef) for s in c.body
+                    if isinstance(s, ast.FunctionDef) and any(ast.unparse(d).split(".")[-1] in ("property", "cached_property") for d in s.decorator_list)}
         for m in self.modules.values():
-            self.inert_removed = getattr(self, "inert_removed", 0) + normalise_tree(m.tree)
+            self.inert_removed = getattr(self, "inert_removed", 0) + normalise_tree(m.tree, computed)
         for m in self.modules.values():
             self._collect_aliases(m)
         for m in self.modules.values():
